@@ -595,6 +595,32 @@ def build(run):
         if T[0] != [("P1", False), ("P1", True)] or any(v != (1 if i == j else 0) for (i, j), v in T[1].items()):
             return violated(f"derivative(c, c) is not the identity on V*: {got}", replay={"case": "derivative(c,c)"}, reproduced=True)
         n += 1
+        # the UNEXPANDED derivative of a base form reports the argument slots of the map it denotes, i.e. those of its expansion -- for primal
+        # directions and for directions in a dual space (differentiation w.r.t. a Cofunction, where the direction is a Coargument)
+        c2 = P["c2_V"]
+        cases_ = [("derivative(c, c)", lambda: derivative(c, c)), ("derivative(A_VV, c)", lambda: derivative(P["A_VV"], c)), ("derivative(c, f)", lambda: derivative(c, f)),
+                  ("derivative(A_VW, f)", lambda: derivative(P["A_VW"], f)), ("derivative(c + c2, c)", lambda: derivative(c + c2, c)), ("derivative(2*c, c)", lambda: derivative(2 * c, c)),
+                  ("derivative(Action(c, f), c)", lambda: derivative(Action(c, f), c)), ("derivative(Action(c, f), f)", lambda: derivative(Action(c, f), f)),
+                  ("derivative(L(v), f)", lambda: derivative(L, f)), ("derivative(c_V + L, f)", lambda: derivative(P["c_V+L"], f))]
+        for nm, mk_ in cases_:
+            try:
+                d_ = mk_()
+                un = slots_of(M, d_)
+                ex_ = expand_derivatives(d_)
+            except Exception as ex:  # noqa: BLE001
+                return violated(f"{nm}: raised {type(ex).__name__}: {ex}", replay={"case": nm}, reproduced=True)
+            if ex_ == 0 and not isinstance(ex_, BaseForm):
+                continue
+            n += 1
+            ident_w = {"derivative(c, c)": 1, "derivative(c + c2, c)": 1, "derivative(2*c, c)": 2}.get(nm)
+            if ident_w is not None:        # d(w c + w2 c2)/dc = w * identity on V*
+                T_ = M.den(ex_)
+                if any(v_ != (ident_w if i_ == j_ else 0) for (i_, j_), v_ in T_[1].items()):
+                    return violated(f"{nm} expands to {str(ex_)[:80]}, which is not {ident_w} x the identity on V*", replay={"case": nm, "result": str(ex_)[:300]}, reproduced=True)
+            ex_slots = M.den(ex_)[0] if isinstance(ex_, C.Coefficient) else slots_of(M, ex_)
+            if un != ex_slots:
+                return violated(f"{nm} (unexpanded) reports arguments over {un}, its expansion {str(ex_)[:80]} over {ex_slots}: the derivative node does not report the "
+                                f"slots of the map it denotes", replay={"case": nm, "unexpanded": str(un), "expanded": str(ex_slots)}, reproduced=True, backend="structural")
         return bounded_ok(n, "derivatives of Cofunction / Matrix / FormSum / Cofunction w.r.t. itself", sample="zero derivatives with the extra argument, linearity over FormSum, identity")
     run.add("derivative/base-forms", derivs, kind="bounded")
 
